@@ -6,6 +6,7 @@ CONSTANTS RF1 = {6}
           Outcomes = {"ok", "conflict", "unavailable"}
           Outcomes2 = {"ok", "conflict", "unavailable"}
           ReplThresholdIsQuorum = FALSE
+          StaleMapReused = FALSE
           WithTimeout = FALSE
           CaseRF1 = {}
           CaseRFLocal = {}
